@@ -238,6 +238,46 @@ def unit_match_to_time(ctx, T, variant):
     ctx.sample({'op': lines[len(lines) // 3], 'implementation': impl[len(lines) // 3]})
 
 
+def unit_word_hour(ctx, T):
+    """The pure number-word branch of parse_basic_regex_match (`numbers.get(source, -1)`), for every key of the
+    English numbers table that does not go through match_to_time, plus non-keys."""
+    tp = T.time_parser()
+    orig = tp.match_to_time
+    hit = []
+
+    def rec(m, r):
+        hit.append(m.group())
+        return orig(m, r)
+
+    words = list(tp.config.numbers) + ['twenty five', 'nought', 'seven ', ' seven', 'SEVEN', '']
+    lines, impl = [], []
+    tp.match_to_time = rec
+    try:
+        for i, w in enumerate(words):
+            ref = ref_dt(REFS[i % len(REFS)])
+            del hit[:]
+            try:
+                r = tp.parse_basic_regex_match(w, ref)
+                a = dtres.res_str(r) if r.success else 'none'
+            except Exception as e:
+                a = dtres.err_kind(e)
+            if hit:
+                continue
+            # the function strips and lower-cases its argument before the lookup
+            lines.append('dt.wordhour\t%s\t%s' % (dtres.dt_field(ref), cps(w.strip().lower())))
+            impl.append(a)
+    finally:
+        del tp.match_to_time
+    model = common.driver(lines)
+    ctx.count('number-word hour', len(lines))
+    for l, a, m in zip(lines, impl, model):
+        if a != 'none':
+            ctx.nontriv(('wordhour', l))
+        if a != m:
+            dtres.report(ctx, 'correspondence', 'word-hour', '%s: implementation %s, model %s' % (l.replace('\t', ' '), a, m),
+                         failing_input={'op': l, 'implementation': a, 'model': m})
+
+
 def unit_resolution(ctx, T):
     """_date_time_resolution (+ _resolve_ampm, _generate_from_resolution) on synthetic slots."""
     from recognizers_date_time.date_time.parsers import DateTimeParseResult
@@ -529,11 +569,13 @@ def replay_witness(ctx, T, variant):
 
 def correspond(ctx):
     T = dtres.Tree()
+    ctx.extra['fingerprints'] = dtres.fingerprints(T, ['time', 'merged'])
     variant = variant_of_tree(T)
     replay_witness(ctx, T, variant)
     ctx.extra['hour0_variant'] = 'if not hour (00:30 unresolved)' if variant == '1' else 'repaired (is None)'
     unit_format(ctx, T)
     unit_match_to_time(ctx, T, variant)
+    unit_word_hour(ctx, T)
     unit_resolution(ctx, T)
     unit_merge(ctx, T, variant)
     pipeline(ctx, variant)
